@@ -53,6 +53,14 @@ CHECKS = {
          "Exploration: every enum variant of every family (incl. Associated with seen / unseen ref_resource, MemoryAdaptive, Custom without generator) combined with boundary and invalid numbers, loaded through every entry point, exercised with entries of every argument shape, reloaded and cleared; a panic anywhere or a manager that no longer answers afterwards is a violation. The build has overflow checks on.",
          "Trusted: virtual clock/sleep; a log sink formatting every record (as any enabled logger would); hangs are reported by the watchdog as inconclusive.",
          "5/C12"),
+ "C18": ("proptest rules from the C12 field menus x document variants (compact, pretty, reordered, dropped field, wrong type, truncation, non-array); round-trip, default and differential-enforcement oracles; metric item round trip",
+         "Exploration: every family's rules with boundary numbers and hostile names/keys are serialised and parsed back through the datasource parser; equality is checked by PartialEq and field by field, dropped fields must equal Default, malformed documents must be Err (never a panic), and the parsed rule must make the same decisions as the original on a short entry script; metric lines are round-tripped with arbitrary counters.",
+         "Trusted: hook exposing the parser and MetricItem fields; truncation judged on the compact form.",
+         "5/C18"),
+ "C20": ("proptest request/poll schedules over a scripted inner tower::Service with an isolation rule; InFlightModel; deterministic hand-rolled executor",
+         "Exploration (fault sequences): generated sequences of calls whose inner outcome is ready Ok/Err or pending-then-Ok/Err, polled in a generated order with several requests in flight; admitted iff Sentinel admits, inner call count, rejection output (fallback or Err) and the return of the in-flight count after Ok and after Err are checked after every step.",
+         "Trusted: tower crate only (tonic not buildable offline); dropped futures are reported, not judged.",
+         "5/C20"),
 }
 ALL = ["C%02d" % i for i in range(1, 21)]
 NOT_YET = "check not built yet in this round (planned, see DESIGN.md section 5)"
